@@ -15,6 +15,15 @@ def sh(cmd, **kw):
 r = sh('git -C /repo worktree add -q --detach %s HEAD' % wt)
 assert r.returncode == 0, r.stderr
 meta = dict(property=prop, name=name, needs=needs, ran=[])
+# SEED_BUILT=<dir with the .so files of tools/confirm/build_extensions.py>: the demo
+# needs the compiled theories (the pinned baseline does not use them)
+built = os.environ.get('SEED_BUILT')
+if built:
+    import glob
+    for so in glob.glob(os.path.join(built, '*.so')):
+        sub = 'tmatrix_f' if os.path.basename(so).startswith('S.') else 'mie_f'
+        shutil.copy(so, os.path.join(wt, 'holopy/scattering/theory', sub))
+    meta['needs_built_extensions'] = True
 try:
     demo = os.path.join(d, 'demo.py')
     have_demo = os.path.exists(demo)
